@@ -1,5 +1,7 @@
 package main
 
+import "strings"
+
 // Option bits (mirrors regexp2.RegexOptions; checked at start-up in main).
 const (
 	oI   = 0x0001
@@ -152,7 +154,20 @@ var quickTimed = []catFam{
 var repls = []string{"$2 $1", "<$0>", "${1}x", "$$", "[$&]", "$`|$'", "$+", "$_", "-", "$1$1", "q$2", "${c}", "\\$1", "a$0b$0", "$3",
 	"z", "", "${year}/${day}", "$10", "${open}", "é$1日", "$1-$2-$3", "${last}!", "<<$'>>", "x$0y$1z$2", "$0$0$0", "${0}", "$999", "$-", "${a}${3}",
 	// these two do not parse ("capture group number out of range"): a failed call that must stay a failed call
-	"$99999999999999999999", "a${2147483648}"}
+	"$99999999999999999999", "a${2147483648}",
+	// the portions of the input around the match (per-call values next to a cached, shared parse of the string)
+	"[$`]", "($')", "<$1:$_>", "a$_b$0c$_d$1e", "$+$`", "x$'y$`z"}
+
+// indices of the replacement strings that use $` $' $_ $+
+var replSpecial = func() []int {
+	var out []int
+	for i, s := range repls {
+		if strings.Contains(s, "$`") || strings.Contains(s, "$'") || strings.Contains(s, "$_") || strings.Contains(s, "$+") {
+			out = append(out, i)
+		}
+	}
+	return out
+}()
 
 // replHot is the handful of replacement strings one scenario keeps coming back to (cache hits, evictions and
 // re-insertions need repeats); set by the generators, empty means "draw from all".
@@ -169,6 +184,9 @@ func setReplHot(r *rng) {
 	replHot = replHot[:0]
 	for k := 2 + r.n(5); k > 0; k-- {
 		replHot = append(replHot, r.n(len(repls)))
+	}
+	if r.chance(1, 2) {
+		replHot[0] = replSpecial[r.n(len(replSpecial))]
 	}
 }
 
